@@ -145,6 +145,28 @@ func c06JudgeInner(p *route.Parser, s string) (bad, kind, class string) {
 			return fmt.Sprintf("the renderings of the segments, joined, give %q; the route renders as %q", parts.String(), whole), "segments-do-not-add-up", ""
 		}
 	}
+	// ... in whatever order route and segments are asked (a fresh parse per order: segment i first, then the
+	// route, then every segment)
+	if n := len(ast.Segments); n >= 2 && (r06Thorough || len(s)%2 == 0) {
+		whole := ast.String()
+		for _, first := range []int{0, n - 1} {
+			fresh, ferr := p.Parse(s)
+			if ferr != nil || len(fresh.Segments) != n {
+				break
+			}
+			one := fresh.Segments[first].String()
+			if w2 := fresh.String(); w2 != whole {
+				return fmt.Sprintf("rendered after its segment %d was rendered on its own (%q), the route gives %q instead of %q", first, one, w2, whole), "rendering-depends-on-order", ""
+			}
+			var parts strings.Builder
+			for _, seg := range fresh.Segments {
+				parts.WriteString(seg.String())
+			}
+			if parts.String() != whole {
+				return fmt.Sprintf("segment %d rendered first, then the route, then every segment: joined they give %q; the route renders as %q", first, parts.String(), whole), "rendering-depends-on-order", ""
+			}
+		}
+	}
 	// fix-point (also on undetermined-but-accepted strings)
 	str := ast.String()
 	var ast2 *route.Route
@@ -261,11 +283,15 @@ func c06Derivations(thorough bool) (full, reduced []string) {
 
 var c06Tokens = []string{"/", "?", "{", "}", ":", ",", " ", "a", "**", "/x|y/", "/[ab]{1, 2}/", "\t"}
 
+// r06Thorough: set by c06Run; in the quick tier the rendering-order check runs on strings of even length only.
+var r06Thorough bool
+
 func c06Run(r *core.Run) {
-	r.Rule = "engine E: (0) routes of 100..5000 bytes interleaved with ordinary ones on one parser; (a) ALL strings up to length L over 17 grammar characters; (b) all token sequences up to T tokens over 12 tokens, explored as a tree that is cut below a string that is not a viable prefix of the grammar (so every accepted string and every first-error string up to T tokens is executed); (c) all derivations of the grammar up to 3 segments / 2 elements / 2 parameters with 0-2 blanks; (d) every single-token deletion, insertion and replacement of derivations; (e) every byte 0..255 and every byte pair inside each token class; oracle: no panic, accept iff the reference recursive-descent recogniser of the README grammar accepts, AST equals the derivation, String() equals the input with blanks normalised, Parse(String()) gives the same structure and String() is idempotent; non-trivial = accepted string"
+	r06Thorough = r.Thorough()
+	r.Rule = "engine E: (0) routes of 100..5000 bytes interleaved with ordinary ones on one parser; (a) ALL strings up to length L over 17 (quick: 15) grammar characters; (b) all token sequences up to T tokens over 12 tokens, explored as a tree that is cut below a string that is not a viable prefix of the grammar (so every accepted string and every first-error string up to T tokens is executed); (c) all derivations of the grammar up to 3 segments / 2 elements / 2 parameters with 0-2 blanks; (d) every single-token deletion, insertion and replacement of derivations; (e) every byte 0..255 and every byte pair inside each token class; oracle: no panic, accept iff the reference recursive-descent recogniser of the README grammar accepts, AST equals the derivation, String() equals the input with blanks normalised, Parse(String()) gives the same structure and String() is idempotent; non-trivial = accepted string"
 	r.Assumptions = []string{"strings on which the README character classes and the lexer's differ ('$' in identifiers; ~ @ ! & ' ; % = inside expressions) get no accept/reject verdict (totality and fix-point are still checked); counted as undetermined", "termination is observed per call, not proved"}
-	L, T := 5, 8
-	r.SetBudget(80 * time.Second)
+	L, T := 5, 7
+	r.SetBudget(100 * time.Second)
 	if r.Thorough() {
 		L, T = 6, 10
 		r.SetBudget(12 * time.Minute)
@@ -273,6 +299,9 @@ func c06Run(r *core.Run) {
 	r.Bounds["string_length"] = L
 	r.Bounds["token_sequence_length"] = T
 	chars := []string{"/", "?", "{", "}", ":", ",", " ", "a", "*", "\\", "|", "[", ".", "(", "\t", "^", "<"}
+	if !r.Thorough() {
+		chars = chars[:15] // quick: without the second blank and the second character outside the grammar
+	}
 	r.Bounds["characters"] = chars
 	r.Bounds["tokens"] = c06Tokens
 
